@@ -1,4 +1,5 @@
 import LimnoriaModel.C06.Model
+import LimnoriaModel.C11.Utf8
 namespace C06
 open Py
 
@@ -273,7 +274,7 @@ theorem utf8Len_eq_bytes (s : Str) : utf8Len s = (C11.utf8 s).length := by
   | nil => rfl
   | cons c cs ih =>
     rw [utf8Len_cons, ih]
-    simp [C11.utf8, String.length_utf8EncodeChar]
+    simp [C11.utf8, C11.encChar_length]
 
 theorem utf8Size_pos (c : Char) : 0 < c.utf8Size := Char.utf8Size_pos c
 
